@@ -38,13 +38,14 @@ Ltac len_from H :=
   | (?k <=? _) = true => pose proof (need_len_nat k _ ltac:(lia) H)
   end.
 
-Theorem payload_by_id_total ms ss id data :
+Theorem payload_by_id_total tb id data :
+  tabs_ok tb = true ->
   need_len id (N.min (N.of_nat (length data)) len_cap) = true ->
   (id = 11 -> ts_good (fold_left ts_step data ts_m0) = true) ->
   (id = 10 -> tc_good (fold_left tc_step data 0) = true) ->
-  exists r, payload_by_id ms ss id data = Ok r.
+  exists r, payload_by_id tb id data = Ok r.
 Proof.
-  intros HL HT HC.
+  intros Htb HL HT HC.
   destruct id as [|p]; [eexists; reflexivity|].
   do 4 (try (destruct p as [p|p|])); try (cbn in HL; discriminate);
     cbn [payload_by_id need_len] in *.
@@ -53,19 +54,20 @@ Proof.
   all: try (apply andb_prop in HL; destruct HL as [H1 H2];
             apply N.leb_le in H1, H2; unfold len_cap in *; apply dec_utf8_total; lia).
   all: len_from HL;
-    first [ apply dec_paste_total | apply dec_report_total | apply dec_kitty_image_total
+    first [ apply dec_paste_total | apply (dec_report_total _ Htb) | apply dec_kitty_image_total
           | apply dec_mouse_total | apply dec_devattrs_total | apply dec_kitty_keyboard_total
-          | apply dec_decmode_total | apply dec_osc_total | apply dec_sgr_total | apply dec_cursor_total ];
+          | apply dec_decmode_total | apply dec_osc_total | apply (dec_sgr_total _ Htb) | apply dec_cursor_total ];
     lia.
 Qed.
 
 (* ------------------------------------------------------------------ *)
 Section Total.
   Variable d : dfa.
-  Variables ids modes statuses : list N.
+  Variable ids : list N.
+  Variable tb : dtabs.
   Variables VL VT VC : cert.
 
-  Notation payload := (payload_at ids modes statuses).
+  Notation payload := (payload_at ids tb).
   Notation item := (item_of payload d).
   Notation run := (run N (d_start d) (d_delta d)).
 
@@ -103,7 +105,8 @@ Section Total.
   Definition certs_ok : bool :=
     closed d len_step 0 VL && accept_ok d VL len_good
     && closed d ts_step ts_m0 VT && accept_ok d VT ts_good_q
-    && closed d tc_step 0 VC && accept_ok d VC tc_good_q.
+    && closed d tc_step 0 VC && accept_ok d VC tc_good_q
+    && tabs_ok tb.
 
   Hypothesis Hcerts : certs_ok = true.
 
@@ -114,6 +117,7 @@ Section Total.
   Proof.
     intros Hq Ha site.
     pose proof Hcerts as Hc. unfold certs_ok in Hc.
+    apply andb_prop in Hc. destruct Hc as [Hc Htb].
     apply andb_prop in Hc. destruct Hc as [Hc HC2]. apply andb_prop in Hc. destruct Hc as [Hc HC1].
     apply andb_prop in Hc. destruct Hc as [Hc HT2].
     apply andb_prop in Hc. destruct Hc as [Hc HT1]. apply andb_prop in Hc. destruct Hc as [HL1 HL2].
@@ -125,7 +129,7 @@ Section Total.
     destruct (d_tag d q) as [[[|] i]|]; [discriminate| |discriminate].
     unfold payload_at.
     destruct (nth_error ids (N.to_nat i)) as [id|] eqn:En; [|discriminate].
-    destruct (payload_by_id_total modes statuses id w GL) as [r ->].
+    destruct (payload_by_id_total tb id w Htb GL) as [r ->].
     - intros ->. exact GT.
     - intros ->. exact GC.
     - destruct r; discriminate.
